@@ -81,7 +81,7 @@ func exploreProfiles(r *ev.Result, budget time.Duration, profiles ...*bworld.Pro
 // brokerReplayFunc replays a broker-world violation.
 func brokerReplayFunc(kind string, raw json.RawMessage) int {
 	switch kind {
-	case "c02http", "c03http", "c04http", "c06http", "c04real", "c06real", "c11file", "c02insert":
+	case "c02http", "c03http", "c04http", "c06http", "c04real", "c06real", "c11file", "c02insert", "c11stress", "c03stress":
 		fmt.Printf("findings of kind %s (an HTTP seam or a session of the real binary) are replayed by re-running the quick check of the property: these parts take seconds; the failing case is in the artefact\n", kind)
 		return 2
 	}
